@@ -16,6 +16,50 @@ pub mod wasm_lib;
 
 use engine::{Ctx, Mode, Tier};
 
+/// Global allocator wrapper: when the system allocator fails (RLIMIT_AS reached) a marker file
+/// is written before the process aborts, so the supervisor counts the case as a resource
+/// limit (inconclusive) instead of a crash.
+struct MarkingAllocator;
+
+static ALLOC_MARKER: std::sync::OnceLock<std::ffi::CString> = std::sync::OnceLock::new();
+
+unsafe impl std::alloc::GlobalAlloc for MarkingAllocator {
+    unsafe fn alloc(&self, layout: std::alloc::Layout) -> *mut u8 {
+        let p = unsafe { std::alloc::System.alloc(layout) };
+        if p.is_null() {
+            mark_alloc_failure();
+        }
+        p
+    }
+    unsafe fn dealloc(&self, ptr: *mut u8, layout: std::alloc::Layout) {
+        unsafe { std::alloc::System.dealloc(ptr, layout) }
+    }
+    unsafe fn realloc(&self, ptr: *mut u8, layout: std::alloc::Layout, new_size: usize) -> *mut u8 {
+        let p = unsafe { std::alloc::System.realloc(ptr, layout, new_size) };
+        if p.is_null() {
+            mark_alloc_failure();
+        }
+        p
+    }
+}
+
+fn mark_alloc_failure() {
+    if let Some(c) = ALLOC_MARKER.get() {
+        // raw syscalls only: no allocation here
+        unsafe {
+            let fd = libc::open(c.as_ptr(), libc::O_CREAT | libc::O_WRONLY | libc::O_TRUNC, 0o644);
+            if fd >= 0 {
+                let msg = b"ALLOC_FAIL";
+                libc::write(fd, msg.as_ptr() as *const libc::c_void, msg.len());
+                libc::close(fd);
+            }
+        }
+    }
+}
+
+#[global_allocator]
+static GLOBAL: MarkingAllocator = MarkingAllocator;
+
 fn arg_value(args: &[String], name: &str) -> Option<String> {
     args.iter().position(|a| a == name).and_then(|i| args.get(i + 1).cloned())
 }
@@ -85,11 +129,12 @@ fn main() {
 
 fn set_limits() {
     unsafe {
-        // 8 GiB address space per worker: an allocation failure aborts the worker, which the
-        // supervisor reports; RLIMIT_AS keeps a runaway case from taking the machine down.
+        // address-space limit per worker (1 GiB of it is the evaluation thread's reserved
+        // stack): an allocation failure writes a marker and aborts the worker, which the
+        // supervisor counts as a resource limit; it keeps a runaway case from taking the machine down.
         let lim = libc::rlimit {
-            rlim_cur: 8 << 30,
-            rlim_max: 8 << 30,
+            rlim_cur: 5 << 30,
+            rlim_max: 5 << 30,
         };
         libc::setrlimit(libc::RLIMIT_AS, &lim);
         let core = libc::rlimit {
@@ -108,15 +153,21 @@ fn worker(args: &[String], prop: &str, tier: Tier, seed: u64) {
     let journal = arg_value(args, "--journal");
     let out = arg_value(args, "--out");
     set_limits();
+    if let Some(j) = &journal {
+        // the CString conversion in the failure path allocates nothing new after this point
+        if let Ok(c) = std::ffi::CString::new(format!("{}.marker", j)) {
+            let _ = ALLOC_MARKER.set(c);
+        }
+    }
     engine::install_panic_hook();
     engine::start_watchdog(journal.clone());
     let known = engine::load_known(&format!("{}/known_findings.json", verif_dir()));
 
-    // run on a thread with an 8 MiB stack: the size of the main-thread stack the CLI
-    // evaluates on (native-stack exhaustion by recursion is C18's subject, on the real binary)
+    // run on a thread with the stack size the shipped CLI gives its interpreter thread
+    // (native-stack exhaustion by recursion is C18's subject, decided on the real binary)
     let prop = prop.to_string();
     let handle = std::thread::Builder::new()
-        .stack_size(8 << 20)
+        .stack_size(1 << 30)
         .spawn(move || {
             let mut ctx = Ctx::new(
                 &prop,
